@@ -184,7 +184,10 @@ func (ci *ChunkInfo) updateQueue(ctx context.Context, authInfo []byte, rootCid, 
 		return
 	}
 	for over := range chunkInfo {
-		o := boson.MustParseHexAddress(over)
+		o, err := boson.ParseHexAddress(over)
+		if err != nil {
+			continue // map keys come from the peer
+		}
 		n := o.Bytes()
 		if o.Equal(ci.addr) {
 			continue
